@@ -508,19 +508,24 @@ impl OcflStore for FsOcflStore {
         let storage_path = self.storage_root.join(&object_root);
 
         // A storage layout may map an ID to a path outside of the storage root, to a path inside
-        // of another object, to a directory that is not an object, or to the root of an object
-        // with a different ID. None of these is the object that was asked for.
+        // of another object, to a directory that other objects are stored beneath, or to the root
+        // of an object with a different ID. None of these is the object that was asked for.
         self.validate_object_root("purge", object_id, &object_root)?;
 
         if storage_path.exists() {
-            if !storage_path.is_dir() || !is_object_root(&storage_path)? {
+            if !storage_path.is_dir() {
                 return Ok(());
             }
 
-            if let Ok(inventory) = parse_inventory(&storage_path, &self.storage_root) {
-                if inventory.id != object_id {
-                    return Ok(());
+            if is_object_root(&storage_path)? {
+                if let Ok(inventory) = parse_inventory(&storage_path, &self.storage_root) {
+                    if inventory.id != object_id {
+                        return Ok(());
+                    }
                 }
+            } else if contains_object_root(&storage_path) {
+                // Not an object, but a directory that other objects are stored beneath
+                return Ok(());
             }
         }
 
@@ -1128,6 +1133,17 @@ fn is_object_root<P: AsRef<Path>>(path: P) -> Result<bool> {
         }
     }
     Ok(false)
+}
+
+/// Returns true if any directory beneath the specified directory is an OCFL object root
+fn contains_object_root<P: AsRef<Path>>(path: P) -> bool {
+    WalkDir::new(path).min_depth(2).into_iter().flatten().any(|entry| {
+        entry.file_type().is_file()
+            && entry
+                .file_name()
+                .to_str()
+                .map_or(false, |name| name.starts_with(OBJECT_NAMASTE_FILE_PREFIX))
+    })
 }
 
 /// Parses the HEAD inventory of the OCFL object that's rooted in the specified directory.
